@@ -139,10 +139,22 @@ StreamNextAfterClose ==
 
 \* TdmsWriter.defragment(source, destination path): when it returns, neither the source (if the library opened it) nor the
 \* destination is held open
+\* It loads the source eagerly, so any fault of the input makes it raise (as TdmsFile.read does); "returns or raises"
+\* covers that like every other call: nothing stays open.
 Defragment ==
+  /\ CanAct /\ api = "none" /\ cfg.index \in {"none", "index"}
+  /\ LET raises == cfg.fault # "none" IN
+     /\ Act([op |-> "defragment", raises |-> raises, fds |-> {}])
+     /\ api' = IF raises THEN "failed" ELSE "written"
+  /\ libfds' = {}
+  /\ UNCHANGED <<cfg, callerClosed, gen>>
+
+\* defragment of a good source into a destination that cannot be opened (its directory does not exist): raises after
+\* the source was read, and the source is not left open
+DefragmentBadDest ==
   /\ CanAct /\ api = "none" /\ cfg.fault = "none" /\ cfg.index \in {"none", "index"}
-  /\ Act([op |-> "defragment", raises |-> FALSE, fds |-> {}])
-  /\ api' = "written"
+  /\ Act([op |-> "defragment_baddest", raises |-> TRUE, fds |-> {}])
+  /\ api' = "failed"
   /\ libfds' = {}
   /\ UNCHANGED <<cfg, callerClosed, gen>>
 
@@ -154,7 +166,7 @@ WriterLateWrite ==
 
 Next == \/ ReadCall("read") \/ ReadCall("read_metadata") \/ OpenCall \/ ReadData \/ Close("close") \/ Close("exit_with")
         \/ ReadAfterClose \/ ReadEager \/ ReadMetaOnly \/ WriterWith(FALSE) \/ WriterWith(TRUE) \/ WriterLateWrite
-        \/ StartStream \/ StreamNextAfterClose \/ CtorKeepOpen \/ Defragment
+        \/ StartStream \/ StreamNextAfterClose \/ CtorKeepOpen \/ Defragment \/ DefragmentBadDest
 Spec == Init /\ [][Next]_vars
 
 (* ------------------------------ properties ------------------------------ *)
